@@ -66,17 +66,19 @@ def run(ctx):
     # scale: one grid with more than 8192 cells in every run (block-wise writers), and in the thorough tier two with more
     # than 100 000 cells, so that the recorded indexes need six digits (dBase field widths, int casts)
     from ..rng import gen
-    extras = [dict(ny=91, nx=92, bounds='var')]
+    extras = [('cf1d', dict(ny=91, nx=92, bounds='var')),
+              # a SHOC grid whose native indexes need 17 characters as JSON, e.g. ["face", 10, 100] (dBase field widths)
+              ('shoc_standard', dict(nj=12, ni=104))]
     if ctx.thorough:
-        extras += [dict(ny=3, nx=33400, bounds='var'), dict(ny=3, nx=33407, bounds='none')]
-    for extra, kw in enumerate(extras):
+        extras += [('cf1d', dict(ny=3, nx=33400, bounds='var')), ('cf1d', dict(ny=3, nx=33407, bounds='none'))]
+    for extra, (econv, kw) in enumerate(extras):
         case = total + extra
         if ctx.only_case is not None and ctx.only_case != case:
             continue
         if ctx.only_case is None and case % ctx.nshards != ctx.shard:
             continue
-        spec = {'case': case, 'convention': 'cf1d', 'large': True}
-        ctx.run_case(spec, one_dataset, obs, gen(ctx.seed, ctx.prop, case, 'large'), 'cf1d', spec, kw)
+        spec = {'case': case, 'convention': econv, 'large': True}
+        ctx.run_case(spec, one_dataset, obs, gen(ctx.seed, ctx.prop, case, 'large'), econv, spec, kw)
 
 
 # ---------------------------------------------------------------------------
@@ -138,7 +140,7 @@ def one_dataset(obs, rng, conv, spec, force_kw=None):
     from emsarray.operations import geometry
     kw = dict(force_kw or {})
     if force_kw:
-        obs.cls('dataset:more-than-100000-cells' if force_kw.get('nx', 0) > 30000 else 'dataset:more-than-8192-cells')
+        obs.cls('dataset:more-than-100000-cells' if force_kw.get('nx', 0) > 30000 else 'dataset:long-native-indexes' if 'ni' in force_kw else 'dataset:more-than-8192-cells')
     if conv in ('cf2d', 'shoc_simple', 'shoc_standard') and chance(rng, 0.6):
         kw['holes'] = pick(rng, ['scatter', 'line', 'block', 'mixed'])
     if conv in ('cf2d', 'shoc_simple') and chance(rng, 0.3):
